@@ -242,4 +242,30 @@ for opn, sym in OPS:
     U('C16', 'c16.%s.lr.double' % opn, 'lem_c16_dlr_' + opn, 'pre_c16_d', None, lemma=True, cxx='lem_c16_dlr_%s($1,$2)' % opn, backends=('cvc5fpa', 'z3fpa', 'kissat'), timeout=300)
     U('C16', 'c16.%s.rl.double' % opn, 'lem_c16_drl_' + opn, 'pre_c16_d', None, lemma=True, cxx='lem_c16_drl_%s($1,$2)' % opn, backends=('cvc5fpa', 'z3fpa', 'kissat'), timeout=300)
 
+# ----------------------------------------------------------------------------- C17
+prop('C17', 'proof',
+     'Each law is a lemma function over the REAL operators, verified for all finite operands: commutativity of + '
+     '(BV) and * (INT), a-b == a+(-b), a-a == 0, the unit laws on |a| < 2^31 (a*1, a*0, a/1, a/a; fixed and integer '
+     'units), and under "no intermediate NaN": (a+b)-b == a, associativity of +, the induction step '
+     'a*(n+1) == a*n + a (with a*0 == 0 and a*1 == a this is "a added to itself n times" for every n of either '
+     'sign), (a*n)/n == a and monotonicity of +. Laws containing * or / are discharged by the INT back end on the '
+     'same AST (range obligation on every signed operation), the others by CBMC. Operation sequences of bounded '
+     'length follow by compositionality of the exact-or-NaN contracts of C01-C03; no sequence enumeration is done.')
+INTQ = dict(engine='int', timeout=180)
+U('C17', 'c17.add_comm', 'lem_c17_add_comm', 'pre_c01', None, lemma=True, cxx='lem_c17_add_comm($1,$2)')
+U('C17', 'c17.mul_comm', 'lem_c17_mul_comm', 'pre_c01', None, lemma=True, cxx='lem_c17_mul_comm($1,$2)', **INTQ)
+U('C17', 'c17.sub_neg', 'lem_c17_sub_neg', 'pre_c01', None, lemma=True, cxx='lem_c17_sub_neg($1,$2)')
+U('C17', 'c17.sub_self', 'lem_c17_sub_self', 'pre_c01', None, lemma=True, cxx='lem_c17_sub_self($1,$2)')
+I2F_L = (I2F('l'), 'pre_i2f_l', 'post_i2f_l')
+I2F_I = (I2F('i'), 'pre_i2f_i', 'post_i2f_i')
+U('C17', 'c17.mul_one', 'lem_c17_mul_one', 'pre_c17_small', None, lemma=True, cxx='lem_c17_mul_one($1)', replace=[I2F_L], **INTQ)
+U('C17', 'c17.mul_zero', 'lem_c17_mul_zero', 'pre_c17_small', None, lemma=True, cxx='lem_c17_mul_zero($1)', replace=[I2F_L], **INTQ)
+U('C17', 'c17.div_one', 'lem_c17_div_one', 'pre_c17_small', None, lemma=True, cxx='lem_c17_div_one($1)', replace=[I2F_L, K_SHL], **INTQ)
+U('C17', 'c17.div_self', 'lem_c17_div_self', 'pre_c17_small', None, lemma=True, cxx='lem_c17_div_self($1)', replace=[I2F_L, K_SHL], **INTQ)
+U('C17', 'c17.add_sub', 'lem_c17_add_sub', 'pre_c01', None, lemma=True, cxx='lem_c17_add_sub($1,$2)')
+U('C17', 'c17.assoc', 'lem_c17_assoc', 'pre_c17_3', None, lemma=True, cxx='lem_c17_assoc($1,$2,$3)')
+U('C17', 'c17.mul_step', 'lem_c17_mul_step', 'pre_c17_n', None, lemma=True, cxx='lem_c17_mul_step($1,$2)', **INTQ)
+U('C17', 'c17.mul_div', 'lem_c17_mul_div', 'pre_c17_n', None, lemma=True, cxx='lem_c17_mul_div($1,$2)', **INTQ)
+U('C17', 'c17.add_mono', 'lem_c17_add_mono', 'pre_c17_3', None, lemma=True, cxx='lem_c17_add_mono($1,$2,$3)')
+
 NOT_APPLICABLE = {}
